@@ -42,6 +42,8 @@ func note(op []string, res string) {
 		}
 	case "resp":
 		k = "resp-" + op[3]
+	case "shutby":
+		k = "shutby"
 	case "kill", "shut", "stake", "unstake", "collect":
 		k = op[0] + "-" + op[1]
 	}
@@ -79,8 +81,16 @@ func impl(ops []string) []string {
 	real := make([]string, len(ops))
 	var x *world
 	stale := false
+	chain := ""
 	for i, line := range ops {
-		op, _, h := splitOpH(line)
+		op, _, h, pch := splitOpHP(line)
+		chain = chainNext(chain, line)
+		if len(op) == 3 && op[0] == "init" {
+			stale = false
+		}
+		if pch != "" && pch != chain {
+			stale = true // something before this line was cut out of the history
+		}
 		func() {
 			defer func() {
 				if r := recover(); r != nil {
@@ -98,7 +108,7 @@ func impl(ops []string) []string {
 					return
 				}
 				var err error
-				x, err = newWorld(op[1], op[2] == "1")
+				x, err = newWorld(op[1], op[2])
 				if err != nil {
 					real[i] = "init-error " + err.Error()
 					x = nil
@@ -160,20 +170,22 @@ func annotateOps(lines []string) []string {
 		op, _ := splitOp(line)
 		if len(op) == 3 && op[0] == "init" {
 			var err error
-			x, err = newWorld(op[1], op[2] == "1")
+			x, err = newWorld(op[1], op[2])
 			if err != nil {
 				panic(err)
 			}
 			out = append(out, strings.Join(op, " "))
+			x.chain = chainNext("", out[len(out)-1])
 			continue
 		}
 		if x == nil {
-			out = append(out, strings.Join(op, " ")+" ; bad-op")
+			c := ""
+			out = append(out, record(&c, op, "bad-op", "bad-op"))
 			continue
 		}
 		x.hist += strings.Join(op, " ") + "\n"
 		res := x.run(op)
-		out = append(out, record(op, res, x.answer(res)))
+		out = append(out, record(&x.chain, op, res, x.answer(res)))
 	}
 	return out
 }
